@@ -627,6 +627,13 @@ func (x *fatRun) openWrite(p string, flag int, seek int64, data []byte, readBack
 				return nil
 			}
 		}
+		if x.doModel && flag&os.O_APPEND == 0 && len(data) > 0 {
+			// the handle's cursor stands behind the last byte written (io.Seeker: Seek(0, SeekCurrent) reports it)
+			if pos, err := f.Seek(0, io.SeekCurrent); err == nil && pos != seek+int64(len(data)) {
+				x.fail("cursor-after-write", "%s: after Seek(%d) and writing %d bytes the cursor stands at %d, not at %d", p, seek, len(data), pos, seek+int64(len(data)))
+				return nil
+			}
+		}
 		if readBack && x.doModel {
 			// same handle: Seek(0) and read everything
 			if _, err := f.Seek(0, io.SeekStart); err != nil {
